@@ -10,6 +10,8 @@ def main() -> int:
     core.WORK.mkdir(exist_ok=True)
     bad = 0
     for p in sorted(core.SPECS.glob("*.tla")):
+        if "Apalache" in p.read_text().split("EXTENDS", 1)[-1].split("\n", 1)[0]:
+            continue  # Apalache modules are parsed by apalache-mc (thorough tier of C15), not by SANY
         try:
             core.sany(p.stem)
         except core.MachineryError as exc:
